@@ -103,6 +103,20 @@ pub fn run(case: &Value, ctx: &Ctx) -> Outcome {
         }
         Err(e) => out.fail("view/combined/unparsable", json!({"error": e})),
     }
+    // --normalize on an input whose total is within 1e-8 of one (but not one): still rescaled to sum to one
+    if norm && nopts == 1 {
+        let total: f64 = x.iter().sum();
+        let near: Vec<f64> = x.iter().map(|v| v / total * (1.0 + 3e-9)).collect();
+        let r = cli::sfs(ctx, &["view", "--normalize", "-O", "npy"], Some(&cli::write_npy(&shape, &near)));
+        match (r.ok(), cli::parse_npy(&r.stdout)) {
+            (true, Ok((_, gv))) => {
+                let t2: f64 = near.iter().sum();
+                out.check(gv.iter().zip(&near).all(|(g, v)| close(*g, v / t2, 1e-13) && (g - v / t2).abs() <= 1e-15 + 1e-13 * (v / t2).abs()),
+                    || "view/normalize/near-one-input".into(), || json!({"sum_in": t2, "sum_out": gv.iter().sum::<f64>(), "first_in": near[0], "first_out": gv[0]}));
+            }
+            (_, e) => out.fail("view/normalize/near-one-error", json!({"stderr": r.stderr, "parse": format!("{e:?}")})),
+        }
+    }
     // text output at two precisions: to the printed precision
     for p in [6usize, 12] {
         let mut a3: Vec<String> = args[..args.len() - 2].to_vec();
